@@ -189,15 +189,20 @@ fn run_t<T>(c: &RawCase, mk: &dyn Fn(usize) -> T, on_step: &mut dyn FnMut(usize)
             if alive[i] && sc == 0 {
                 return Some(("premature-destruction", "other-payload-object-destroyed", format!("payload {tname}: object {i} is dead although it is reachable or not collectable: expected {expect} strong handles"), step));
             }
-            if sc as u32 != expect {
+            if crate::report::soft_enabled(crate::report::S_COUNT) && sc as u32 != expect {
                 return Some(("count-mismatch", "other-payload-strong-count", format!("payload {tname}: object {i} has strong count {sc}, expected {expect}"), step));
             }
-            if !alive[i] && sut(|| weaks[i].upgrade()).is_some() {
+            if crate::report::soft_enabled(crate::report::S_WEAK) && !alive[i] && sut(|| weaks[i].upgrade()).is_some() {
                 return Some(("weak-resurrect", "other-payload-upgrade", format!("payload {tname}: Weak to dead object {i} upgraded"), step));
             }
         }
-        // the link tables against the adoptions made (objects we can still reach through a handle)
+        // the link tables against the adoptions made (objects we can still reach through a
+        // handle); like every oracle that is not a safety oracle it is evaluated only by the
+        // profiles it belongs to, so that it cannot mask their own symptom
         for i in 0..k {
+            if !crate::report::soft_enabled(crate::report::S_LEDGER) {
+                break;
+            }
             let Some(h) = outside[i].first() else { continue };
             let snap = verif::links_snapshot(h);
             for &(a, kind, count) in &snap {
@@ -307,7 +312,7 @@ fn run_t<T>(c: &RawCase, mk: &dyn Fn(usize) -> T, on_step: &mut dyn FnMut(usize)
                 }
             }
             for &s in &set {
-                if sut(|| weaks[s].strong_count()) != 0 {
+                if crate::report::soft_enabled(crate::report::S_COLLECT) && sut(|| weaks[s].strong_count()) != 0 {
                     return Some(("not-collected", "other-payload-group-left", format!("payload {tname}: the group {:?} became orphaned (every handle a recorded adoption inside it) but object {s} is still alive", set), step + 1));
                 }
             }
@@ -319,7 +324,7 @@ fn run_t<T>(c: &RawCase, mk: &dyn Fn(usize) -> T, on_step: &mut dyn FnMut(usize)
     // dead objects: allocation pinned by our Weak until it is dropped, then released
     for i in 0..k {
         let (a, g) = addr[i];
-        if !alive[i] && alloc::block_state_gen(a, g) != alloc::BlockState::Live {
+        if crate::report::soft_enabled(crate::report::S_LEAK) && !alive[i] && alloc::block_state_gen(a, g) != alloc::BlockState::Live {
             return Some(("released-early", "other-payload-allocation", format!("payload {tname}: allocation of dead object {i} released while a Weak exists"), c.order.len()));
         }
     }
@@ -328,7 +333,7 @@ fn run_t<T>(c: &RawCase, mk: &dyn Fn(usize) -> T, on_step: &mut dyn FnMut(usize)
     sut(move || drop(weaks));
     for i in 0..k {
         let (a, g) = addr[i];
-        if dead[i] && alloc::block_state_gen(a, g) != alloc::BlockState::Released {
+        if crate::report::soft_enabled(crate::report::S_LEAK) && dead[i] && alloc::block_state_gen(a, g) != alloc::BlockState::Released {
             return Some(("not-released", "other-payload-allocation", format!("payload {tname}: allocation of dead object {i} not released after the last Weak was dropped"), c.order.len()));
         }
     }
